@@ -43,9 +43,12 @@ def search(start, enabled, step, canon, check, depth, res, snapshot=None, prefix
                 res.transitions += 1
                 res.evals += 1
                 bad = False
-                for sig, detail in check(live, model, model2, op, obs, pre):
-                    res.violation(sig, detail, {"history": hist + [op]})
-                    bad = True
+                for item in check(live, model, model2, op, obs, pre):
+                    res.violation(item[0], item[1], {"history": hist + [op]})
+                    # a third element False marks a violation after which model and implementation are still in step
+                    # (the model itself accounts for it), so the history is extended
+                    if len(item) < 3 or item[2]:
+                        bad = True
                 if bad:
                     # implementation and reference model have diverged: histories through this transition are not
                     # extended (their verdicts would only repeat the divergence)
